@@ -5,6 +5,15 @@ import vlib
 from props import btreelib as bt
 
 PROPS = "Properties_C01"
+# leaf functions / constants of btree.c are re-translated from the C source on every run (tools/translate_leaf.py ->
+# coq/gen/Leaf.v, Constants.v) and re-proved equal to the model's (coq/Properties_leaf_btree.v)
+EXTRA_PROPS = ["Properties_leaf_btree"]
+
+
+def REGEN(ctx):
+    vlib.regen_leaf(ctx, ["BTree"])
+
+
 RULE = ("random histories of insert/remove/find/clear (+ allocation scripts in ~12% of them) at page sizes "
         "64/128/256/4096 over key universes sized for heights 1-4, phases biased to grow/shrink/churn with "
         "ascending/descending/random key patterns, walk (begin..end) after every op for small universes; thorough adds "
